@@ -78,8 +78,43 @@ func init() {
 				mc := mc
 				items = append(items, Item{ID: mc.ID(), Run: func(c *Ctx) { c20(c, mc) }})
 			}
+			// the zero value of every type (absent parts are filled in by Encode: with what?)
+			for _, mod := range modules {
+				for _, tn := range c.sc.Mods[mod].TypeNames() {
+					mod, tn := mod, tn
+					items = append(items, Item{ID: "zero:" + mod + "." + tn, Run: func(c *Ctx) { c20zero(c, mod, tn) }})
+				}
+			}
 			return items
 		}}
+}
+
+// c20zero: Encode of the zero value: footprint, and the filled-in message must own its memory.
+func c20zero(c *Ctx, mod, tn string) {
+	e := c.e()
+	T := c.w.typeOf(mod, tn)
+	enc := c.w.method(mod, tn, "Encode")
+	if T == nil || enc == nil {
+		c.Inconclusive("type or Encode not found")
+		return
+	}
+	s := c.w.newState()
+	recv := &Ptr{Obj: s.newObj(&Obj{Kind: kCell, Val: e.zero(T)})}
+	bufID := s.newObj(&Obj{Kind: kBuffer, B: EmptyBytes(), R: CI(0)})
+	replay := func(val func(*Term) uint64) *ReplayReq {
+		steps := []map[string]any{step("op", "newbuf", "buf", "b", "hex", ""), step("op", "newmsg", "msg", "m", "module", mod, "type", tn), step("op", "encode", "msg", "m", "buf", "b"),
+			step("op", "decode", "msg", "m", "buf", "b")}
+		return &ReplayReq{Steps: []map[string]any{step("op", "parallel", "threads", 8, "n", 40, "ops", steps)}, Judge: Judge{Kind: "anomaly", Step: 0, Note: "race"}}
+	}
+	e.pushCall(s, enc, []Value{recv, &Ptr{Obj: bufID}}, nil)
+	for _, fs := range e.Run(s) {
+		if c.PathProblem(fs, "Encode", nil) {
+			continue
+		}
+		c.footprint(fs, "Encode (zero value)", replay)
+		c.ownsItsMemory(fs, recv, "Encode of the zero value", replay)
+		c.res.Witness++
+	}
 }
 
 func c17zero(c *Ctx, mod, tn string, ctor bool) {
@@ -418,6 +453,7 @@ func c16enc(c *Ctx, mc MsgCase) {
 				nb.At = func(i *Term) *Term { return Select(arr, i) }
 				o.B = nb
 			case kElems:
+				o.ownE()
 				for i := range o.E {
 					if t, ok := o.E[i].(*Term); ok {
 						o.E[i] = e.freshVar("mut", t.W)
@@ -519,6 +555,13 @@ func c20(c *Ctx, mc MsgCase) {
 			continue
 		}
 		c.footprint(fs, "Encode", func(val func(*Term) uint64) *ReplayReq { return par(h.encodeSteps(val)) })
+		// the message must not end up referring to package-level objects (an absent part filled in with a shared
+		// instance makes independent messages share memory): replayed as encode, then decode into the same
+		// object, in parallel threads under the race detector
+		c.ownsItsMemory(fs, h.mPtr, "Encode", func(val func(*Term) uint64) *ReplayReq {
+			st := h.encodeSteps(val)
+			return par(append(st, step("op", "decode", "msg", "m", "buf", "b")))
+		})
 		c.Witness(fs, "encode footprint", func(val func(*Term) uint64) any {
 			return map[string]any{"global_objects_read": len(fs.acc)}
 		})
@@ -548,5 +591,25 @@ func c20(c *Ctx, mc MsgCase) {
 			continue
 		}
 		c.footprint(ds, "Decode", func(val func(*Term) uint64) *ReplayReq { return par(decodeSteps(mc, input(val))) })
+		c.ownsItsMemory(ds, d, "Decode", func(val func(*Term) uint64) *ReplayReq {
+			st := decodeSteps(mc, input(val))
+			return par(append(st, step("op", "newbuf", "buf", "b2", "hex", hexOf(input(val))), step("op", "decode", "msg", "d", "buf", "b2")))
+		})
 	}
+}
+
+// ownsItsMemory: no object reachable from the message existed before the call as package-level state.
+func (c *Ctx) ownsItsMemory(st *State, msg Value, what string, replay func(val func(*Term) uint64) *ReplayReq) {
+	seen := map[int]bool{}
+	var aliased []string
+	reachable(st, msg, seen, &aliased)
+	shared := 0
+	for id := range seen {
+		if id <= c.e().baseMax {
+			shared = id
+		}
+	}
+	c.Prove(st, "message-refers-to-no-package-level-object", B(shared == 0), func(val func(*Term) uint64) *Violation {
+		return &Violation{Detail: fmt.Sprintf("after %s the message refers to an object that exists since package initialisation (object %d): independent messages share it", what, shared), Replay: replay(val)}
+	})
 }
